@@ -413,11 +413,44 @@ def diff_fields(got, ref):
     return "value"
 
 
+def sweep_pairs():
+    """Deterministic (A, B) op pairs for the single-pre-emption sweep: B is a sibling that a shared
+    slot / too-coarse key / leaked entry would confuse with A (collision families of DESIGN 3.5)."""
+    v31 = "CVSS:3.1/AV:N/AC:L/PR:L/UI:R/S:C/C:H/I:L/A:H/E:F/RL:W/RC:R/CR:H/IR:M/AR:L/MAV:A/MPR:N/MS:C/MC:H"
+    v30 = "CVSS:3.0" + v31[8:]
+    v31b = v31.replace("/PR:L/", "/PR:H/").replace("/MC:H", "/MC:L/MI:H")
+    v2a = "AV:N/AC:M/Au:S/C:P/I:C/A:P/E:F/RL:W/RC:UR/CDP:LM/TD:M/CR:H/IR:L/AR:M"
+    v2b = "AV:L/AC:H/Au:M/C:C/I:N/A:C/E:U/RL:OF/RC:UC/CDP:H/TD:H/CR:L/IR:H/AR:H"
+    v4a = "CVSS:4.0/AV:A/AC:H/AT:P/PR:L/UI:P/VC:L/VI:H/VA:N/SC:L/SI:N/SA:H/E:P/CR:M/IR:H/AR:L/MAV:N/MSI:S/S:P/U:Red"
+    v4b = "CVSS:4.0/AV:N/AC:L/AT:N/PR:N/UI:N/VC:H/VI:H/VA:H/SC:H/SI:H/SA:H"
+    v3inv = v31.replace("/C:H/", "/C:Q/")
+
+    def ob(cls, s, how="ctor"):
+        return {"op": "observe", "cls": cls, "how": how, "s": s}
+
+    return [
+        ("v3.1-vs-v3.0-same-body", ob("CVSS3", v31), ob("CVSS3", v30)),
+        ("v3-vs-v3-other-metrics", ob("CVSS3", v31), ob("CVSS3", v31b)),
+        ("v2-vs-v2", ob("CVSS2", v2a), ob("CVSS2", v2b)),
+        ("v4-vs-v4", ob("CVSS4", v4a), ob("CVSS4", v4b)),
+        ("v3-vs-rejected-sibling", ob("CVSS3", v31), ob("CVSS3", v3inv)),
+        ("v3-vs-v4", ob("CVSS3", v30), ob("CVSS4", v4a)),
+        ("rh-vs-rh", ob("CVSS3", "7.4/" + v31, "rh"), ob("CVSS3", "10.0/CVSS:3.0/AV:N/AC:L/PR:N/UI:N/S:C/C:H/I:H/A:H", "rh")),
+        ("text-vs-text", {"op": "text", "s": "see " + v31 + " and " + v2a + " (" + v30 + ")"},
+         {"op": "text", "s": v2b + "; " + v31b + " " + v2a}),
+    ]
+
+
 class StateEngine(object):
     prop = PROP
 
-    def __init__(self, seed=0, force_threads=None):
+    def __init__(self, seed=0, force_threads=None, mode="random", granularity="line", stride=1, offset=0):
         self.seed = seed
+        self.mode = mode
+        self.sweep_granularity = granularity
+        self.sweep_stride = max(1, stride)
+        self.sweep_offset = offset % max(1, stride)
+        self._sweep_plan = {}
         self.repo = core.repo_dir()
         self.prefix = os.path.join(self.repo, "cvss") + os.sep
         self.room = None
@@ -468,8 +501,61 @@ class StateEngine(object):
                 "violations": vio, "counters": {"import_effect_checks": 1}, "nontrivial": False, "steps": 1,
                 "sample": {"import_effects": effects}}
 
+    # ---- single-pre-emption sweep ------------------------------------------------------
+    def sweep_plan(self, granularity, pairs=None):
+        """For every (pair, order): the number of pre-emption points N of the first op when it runs
+        alone (dry run). -> list of (pair_name, first_op, second_op, N); cases are all k in 1..N."""
+        key = (granularity, tuple(pairs) if pairs else None)
+        if key in self._sweep_plan:
+            return self._sweep_plan[key]
+        self._lazy()
+        plan = []
+        for name, a, b in sweep_pairs():
+            if pairs and name not in pairs:
+                continue
+            for first, second, tag in ((a, b, "A-preempted-by-B"), (b, a, "B-preempted-by-A")):
+                actors = [{"env": dict(DEFAULT_ENV), "ops": [first]}, {"env": dict(DEFAULT_ENV), "ops": [second]}]
+                refs = self.refs_for(actors)
+                rep = fork_run(lambda: execute_in_child(actors, granularity, sched.ReplayDecider([[0, 0]]), refs,
+                                                        self.prefix, self.guard, 300000))
+                if "child_error" in rep or rep.get("errors"):
+                    raise HarnessError("sweep dry run failed: %s" % (rep.get("child_error") or rep.get("errors")))
+                # steps 1..N belong to the first op (thread 0 runs alone until it exits at step N+1)
+                n_first = rep["taken"][1][0] - 1 if len(rep["taken"]) > 1 else 0
+                plan.append((name + ":" + tag, first, second, n_first))
+        self._sweep_plan[key] = plan
+        return plan
+
+    def sweep_size(self, granularity=None, pairs=None, stride=None, offset=None):
+        granularity = granularity or self.sweep_granularity
+        stride = stride or self.sweep_stride
+        offset = self.sweep_offset if offset is None else offset
+        return sum(max(0, (n - offset + stride - 1) // stride) for _, _, _, n in self.sweep_plan(granularity, pairs))
+
+    def run_sweep(self, index, granularity=None, pairs=None, stride=None, offset=None):
+        granularity = granularity or self.sweep_granularity
+        stride = stride or self.sweep_stride
+        offset = self.sweep_offset if offset is None else offset
+        plan = self.sweep_plan(granularity, pairs)
+        i = index
+        for name, first, second, n in plan:
+            cnt = max(0, (n - offset + stride - 1) // stride)
+            if i < cnt:
+                k = 1 + offset + i * stride
+                actors = [{"env": dict(DEFAULT_ENV), "ops": [first]}, {"env": dict(DEFAULT_ENV), "ops": [second]}]
+                trace = {"engine": "state", "sweep_case": [name, granularity, k, n], "hashseed": self.hashseed,
+                         "actors": actors, "granularity": granularity, "schedule": [[0, 0], [k, 1]]}
+                out = self._run(trace, sched.ReplayDecider(trace["schedule"]))
+                out["counters"]["sweep.single_preemption_runs"] = 1
+                out["counters"]["sweep.single_preemption_runs.%s" % granularity] = 1
+                return out
+            i -= cnt
+        raise HarnessError("sweep index %d out of range" % index)
+
     def run_one(self, index):
         self._lazy()
+        if self.mode == "sweep":
+            return self.run_sweep(index)
         if index < 0:
             return self.import_run()
         run_seed = mix(self.seed, PROP, index)
@@ -652,5 +738,5 @@ def clip(res, field, other=None):
     return s if len(s) < 260 else s[:257] + "..."
 
 
-def make_engine(seed=0, force_threads=None):
-    return StateEngine(seed, force_threads)
+def make_engine(seed=0, force_threads=None, mode="random", granularity="line", stride=1, offset=0):
+    return StateEngine(seed, force_threads, mode, granularity, stride, offset)
